@@ -253,7 +253,37 @@ def resolve_bad(root: Any, other: Any, op: dict) -> Bad:
     raise OPS.NotApplicable(k)
 
 
+def run_costform(case: dict) -> Result:
+    """(e) every assignment to the cost group from every initial concrete form: whenever it raises, nothing may have changed."""
+    from vf.props import c09
+    res = Result()
+    text = '2000-01-01 *\n  Assets:A 10 STK ' + case['form'] + ' @ 2 USD\n  Assets:B\n'
+    try:
+        root = common.parse_file(text)
+    except Exception:  # noqa: BLE001
+        return Result(discard=True)
+    c = root.raw_directives[0].raw_postings[0].raw_cost
+    classes = {'e:cost'}
+    for step in case['ops']:
+        field, v = step['field'], step['v']
+        pyv = bool(v) if field == 'merge' else c09.to_py(field, v)
+        before = O.Snapshot(root)
+        try:
+            setattr(c, field, pyv)
+        except Exception as e:  # noqa: BLE001
+            classes.add('raised')
+            res.nontrivial = True
+            d = before.diff(O.Snapshot(root))
+            if d:
+                res.bad(f'changed-after-refusal:cost:{field}', f'{case["form"]} after {case["ops"]}: {field} = {v!r} raised {e!r} but the document changed: {d}')
+            break
+    res.classes = sorted(classes)
+    return res
+
+
 def run_case(case: dict) -> Result:
+    if case.get('kind') == 'costform':
+        return run_costform(case)
     res = Result()
     root = common.parse_case(case)
     if root is None:
@@ -440,5 +470,16 @@ def _gen_bad(g: L.G, root: Any) -> Optional[dict]:
             'same_position': g.p(0.6)}
 
 
+def _enum_costforms(maxlen: int):
+    import itertools
+    from vf.props import c09
+    steps = c09._cost_steps()
+    for form in c09.cost_forms():
+        for n in range(1, maxlen + 1):
+            for seq in itertools.product(steps, repeat=n):
+                yield {'kind': 'costform', 'form': form['text'], 'ops': list(seq)}
+
+
 def jobs(tier: str) -> list[Job]:
-    return [Job('refusals', 'hyp', lambda: _build(tier), 4000 if tier == 'quick' else 150000)]
+    return [Job('refusals', 'hyp', lambda: _build(tier), 4000 if tier == 'quick' else 150000),
+            Job('cost-forms', 'enum', lambda: _enum_costforms(2 if tier == 'quick' else 3), exhaustive=True)]
